@@ -12,6 +12,7 @@ marker file in <base>.  Three independent observations decide a session:
  3. no marker that exists only outside the root (file content and entry names
     of the sibling and the parent) appears on the control or data channel.
 """
+import errno
 import itertools
 import os
 import shutil
@@ -54,8 +55,8 @@ HAND = [
     "../../root-sib/x", "../../../root-sib/x", "../../../../root-sib/x", "a/../../root-sib/x", "a/b/../../../root-sib/x",
     "/../root-sib/x", "/a/../../root-sib/x", "/a/b/../../../root-sib/x", "//../root-sib/x", "/./../root-sib/x",
     "..//root-sib//x", ".././root-sib/./x", "../root-sib/../root-sib/x", "../root/f", "../root/../root-sib/x",
-    "../new-in-parent", "../..", "../../..", "/../..", "../../../../../../../../etc/hostname",
-    "/../../../../../../../../etc/hostname", SIB + "/x", SIB, ROOT + "/f", ROOT + "/../root-sib/x",
+    "../new-in-parent", "../..", "../../..", "/../..", "../../../../../../../.." + SIB + "/x",
+    "/../../../../../../../.." + SIB + "/new", SIB + "/x", SIB, ROOT + "/f", ROOT + "/../root-sib/x",
     "..\0/root-sib/x", "../root-sib/x\0", "\0../root-sib/x", "f\0/../../root-sib/x", "../root-sib\0/x",
     "-a", "-l", "-al", "-la", "-L ../root-sib", "-a ../root-sib", "../*", "../root-sib/*", "../root-s*", "a/../../root-s*/x",
     "..\\root-sib\\x", "%2e%2e/root-sib/x", "..%2froot-sib%2fx", "~/../root-sib/x", "\xe9/../../root-sib/x",
@@ -107,6 +108,7 @@ class G:
     base = None
     events = []      # (event, path) seen while audit_on
     noise = 0
+    blocked = 0
     reactor = None
     fake = False
     pristine = None
@@ -116,7 +118,19 @@ PATH_ARGS = {"open": (0,), "os.listdir": (0,), "os.scandir": (0,), "os.mkdir": (
              "os.remove": (0,), "os.rename": (0, 1), "os.link": (0, 1), "os.symlink": (0, 1), "os.chmod": (0,),
              "os.chown": (0,), "os.truncate": (0,), "os.utime": (0,), "os.chdir": (0,), "shutil.rmtree": (0,),
              "shutil.copyfile": (0, 1), "shutil.move": (0, 1), "os.walk": (0,), "glob.glob": (0,)}
-NOISE_FILES = ("importlib", "/linecache.py", "/tokenize.py", "<frozen ")
+NOISE_FILES = ("<frozen importlib", "/importlib/", "/linecache.py", "/tokenize.py")
+
+
+def _mutating(event, args):
+    if event != "open":
+        return event not in ("os.listdir", "os.scandir", "os.walk", "glob.glob", "os.chdir")
+    mode = args[1] if len(args) > 1 else None
+    flags = args[2] if len(args) > 2 else 0
+    if isinstance(mode, str) and any(c in mode for c in "wax+"):
+        return True
+    if isinstance(flags, int) and flags & (os.O_WRONLY | os.O_RDWR | os.O_CREAT | os.O_TRUNC | os.O_APPEND):
+        return True
+    return False
 
 
 def _audit(event, args):
@@ -155,6 +169,12 @@ def _audit(event, args):
                 sys.stderr.write("noise: %s %s\n" % (event, full))
             continue
         G.events.append((event, full))
+        if _mutating(event, args):
+            # Record the attempt, then refuse it: a server that has lost its confinement (a seeded defect) must
+            # not be able to damage anything outside the scratch root.  Reads are let through so that the
+            # disclosure observation stays independent of this hook.
+            G.blocked += 1
+            raise PermissionError(errno.EACCES, "C54: operation outside the scratch root refused", full)
 
 
 def setup():
@@ -197,7 +217,35 @@ def setup():
     sys.addaudithook(_audit)
     import atexit
     atexit.register(cleanup)
+    selftest()
     G.ready = True
+
+
+def selftest():
+    """The hook must see and refuse a mutation outside the root before any session is allowed to run."""
+    os.makedirs(G.root, exist_ok=True)
+    probe = os.path.join(G.base, "selftest-outside")
+    G.events = []
+    G.audit_on = True
+    try:
+        refused = 0
+        for op in (lambda: os.mkdir(probe), lambda: open(probe, "w"), lambda: os.rename(G.root, probe),
+                   lambda: os.rmdir(G.base), lambda: os.remove(probe)):
+            try:
+                op()
+            except PermissionError as e:
+                if "C54" in str(e):
+                    refused += 1
+            except OSError:
+                pass
+        os.listdir(G.base)
+    finally:
+        G.audit_on = False
+    seen = [e for e, w in G.events if w != "inside"]
+    if refused != 5 or len(seen) < 6 or os.path.exists(probe):
+        raise RuntimeError("C54 audit hook self-test failed: refused=%d events=%r" % (refused, G.events))
+    G.events = []
+    G.blocked = 0
 
 
 def cleanup():
@@ -468,6 +516,7 @@ def run_shard(shard, tier, seed):
         if spec:
             st.sample({k: spec[k] for k in ("shell", "prefix", "cmd", "path")})
         st.count("audit_noise_events", G.noise)
+        st.count("refused_operations_outside_root", G.blocked)
     finally:
         cleanup()
     return st
